@@ -74,6 +74,8 @@ class Profile:
         self.p_reqspell = 0.12           # a required point spells the argument out (`required`, `required=True`, `required=no`, ...)
         self.p_initget = 0.0             # a component's Init asks the container for other components (extras: Model/FactoryX.v)
         self.p_short = 0.0               # a processor short-circuits the instantiation of some components (extras)
+        self.p_qual_api = 0.0            # a point's qualifier set is not written in its tag: the scenario's PriorityOrdered user
+                                         # post-processor adds it through Property.AddArg("qualifier", ...) (needs such a processor)
         self.perms = 1
         self.__dict__.update(kw)
 
@@ -384,7 +386,28 @@ def gen_scenario(rng, sid, pf):
     if rng.random() < pf.p_fault:
         add_faults(rng, scn, rng.randint(*pf.n_faults))
     rng.shuffle(scn["regorder"])
+    if pf.p_qual_api and has_priority_proc(scn):
+        # the model knows the point by its qualifier set; HOW the set reaches the point is the implementation's business
+        for t in types:
+            if t["proc"] or t.get("bare") or t.get("nonstruct") or t.get("local") is not None or t.get("foreign"):
+                continue
+            for p in t["fields"]:
+                if p["quals"] is not None and p["sel"][0] != "func" and rng.random() < pf.p_qual_api:
+                    p["qual_api"] = True
     return scn
+
+
+def has_priority_proc(scn):
+    """a user post-processor that is PriorityOrdered: it sees every property before the Ordered built-in processors do"""
+    return any(c["proc"] is not None and scn["types"][c["type"]]["proc"] == "P" for c in scn["comps"])
+
+
+def qual_api_points(scn):
+    """(type index, field index) of the points whose qualifier set is added programmatically in this scenario"""
+    if not has_priority_proc(scn):
+        return []
+    return [(ti, k) for ti, t in enumerate(scn["types"]) for k, p in enumerate(t["fields"])
+            if p.get("qual_api") and p["quals"] is not None]
 
 
 def py_candidates(scn, hci, p):
@@ -498,10 +521,10 @@ def name_key(sid, ti, k):
     return "wn%d_%d_%d" % (sid, ti, k)
 
 
-def tag_of(p, key=None):
+def tag_of(p, key=None, qual_api=False):
     sel = p["sel"]
     args = ""
-    if p["quals"] is not None:
+    if p["quals"] is not None and not qual_api:
         args += ",qualifier=" + " ".join(p["quals"])
     if not p["required"]:
         args += ",required=false"
@@ -538,6 +561,7 @@ def go_field_type(sid, p, types=None):
 def gen_go(scn):
     sid = scn["id"]
     out = []
+    qapi = set(qual_api_points(scn))
     sealed = scn.get("sealed") or [False] * scn["nif"]
     mname = lambda i: ("mI%d_%d" if sealed[i] else "MI%d_%d") % (sid, i)
     for i in range(scn["nif"]):
@@ -602,7 +626,7 @@ def gen_go(scn):
         if emb:
             out.append("type e%s struct {" % tn)
             for k, p in enumerate(t["fields"]):
-                out.append("\tW%d %s `%s`" % (k, go_field_type(sid, p, scn["types"]), tag_of(p, name_key(sid, ti, k))))
+                out.append("\tW%d %s `%s`" % (k, go_field_type(sid, p, scn["types"]), tag_of(p, name_key(sid, ti, k), (ti, k) in qapi)))
             out.append("}")
         out.append("type %s struct {\n\tb wx.Base" % tn)
         if emb:
@@ -619,14 +643,10 @@ def gen_go(scn):
             out.append("\twx.PrioM")
         for k, p in enumerate(t["fields"]):
             if not emb:
-                out.append("\tW%d %s `%s`" % (k, go_field_type(sid, p, scn["types"]), tag_of(p, name_key(sid, ti, k))))
+                out.append("\tW%d %s `%s`" % (k, go_field_type(sid, p, scn["types"]), tag_of(p, name_key(sid, ti, k), (ti, k) in qapi)))
         for k, cp in enumerate(t["cfields"]):
             key = "k%d_%d_%d" % (sid, ti, k)
-            opt = "" if cp["required"] else ",required=false"
-            if cp["prefix"]:
-                out.append('\tV%d string `prefix:"%s%s"`' % (k, key, opt))
-            else:
-                out.append('\tV%d string `value:"${%s}%s"`' % (k, key, opt))
+            out.append("\tV%d string `%s`" % (k, cfield_tag(cp, key, (sid * 7 + ti * 3 + k) % 6)))
         out.append("}")
         out.append("func (t *%s) WxBase() *wx.Base { return &t.b }" % tn)
         out.append("type P%s struct {\n\t*%s\n\tPid int\n}" % (tn, tn))
@@ -666,6 +686,23 @@ def regname_of(scn, ci):
     if f and not c["name"]:
         return "%s/%s" % (f[1], f[2])
     return c["name"] if c["name"] else "%s/%s" % (PKG, go_type_name(scn["id"], c["type"]))
+
+
+def cfield_tag(cp, key, dflt_variant):
+    """the tag of a configuration point.  The model knows a point by (prefix | value, required, satisfiable); the tag
+    spells that in one of six ways (kept in the scenario as cp["tagv"]): the value route also as the prop shorthand, and
+    the Required argument alone, last, first or in the middle of further arguments that are harmless on a string field
+    (custom ones, validate=omitempty ..., mapper=json) - an optional point never fails, whatever else its tag carries"""
+    v = cp.setdefault("tagv", dflt_variant)
+    opt = "" if cp["required"] else ",required=false"
+    if cp["prefix"]:
+        return 'prefix:"%s%s"' % (key, [opt, opt, ",x=1" + opt, opt + ",note=a b", ",x=1" + opt + ",y=2", opt][v])
+    return ['value:"${%s}%s"' % (key, opt),
+            'prop:"%s%s"' % (key, opt),
+            'prop:"%s,x=1%s"' % (key, opt),
+            'prop:"%s%s,note=a b"' % (key, opt),
+            'value:"${%s},validate=omitempty%s,x=1"' % (key, opt),
+            'prop:"%s,validate=omitempty min=1%s,mapper=json"' % (key, opt)][v]
 
 
 def config_yaml(scn):
@@ -763,6 +800,11 @@ def runtime_cfg(scn, facts, lookups="all", shared_names=False):
         pos = min(len(lk), 1 + scn["id"] % (len(lk) + 1))
         lk[pos:pos] = extra
     return {"id": scn["id"], "comps": comps, "regorder": scn["regorder"], "names": rank, "config": config_yaml(scn),
+            # qualifier sets that are not written in the tag: every user post-processor adds them to the property it is shown
+            # with Property.AddArg("qualifier", ...) - the spelling tags use -; the PriorityOrdered one among them does so before
+            # the built-in processors read the argument
+            "qualapi": {"%s/W%d" % (go_type_name(scn["id"], ti), k): scn["types"][ti]["fields"][k]["quals"]
+                        for ti, k in qual_api_points(scn)},
             "loaderFail": scn["loaderFail"], "lookups": lk, "dup": scn.get("dup", []),
             # the factory's registry calls are traced in two scenarios out of three (the third runs without the wrapper)
             "trace": scn.get("trace", scn["id"] % 3 != 0),
@@ -1175,7 +1217,20 @@ def scenario_stats(scns, by_id):
             for p in t["fields"]:
                 k = p["sel"][0] + ("-slice" if p["slice"] else "") + ":" + p["target"][0]
                 kinds[k] = kinds.get(k, 0) + 1
+    ran = [s for s in scns if s["id"] in by_id]
+    ctags = {}
+    for s in ran:
+        for t in s["types"]:
+            for cp in t["cfields"]:
+                k = "%s/%s/%s/tag spelling %s" % ("prefix" if cp["prefix"] else "value-or-prop", "required" if cp["required"] else "optional",
+                                                  "configured" if cp["sat"] else "not configured", cp.get("tagv", "?"))
+                ctags[k] = ctags.get(k, 0) + 1
     return {"outcomes": oc, "components_per_scenario": sizes, "point_kinds": kinds,
+            "configuration_points(route/required/configured/tag spelling 0-5: see wiring.cfield_tag)": dict(sorted(ctags.items())),
+            "qualifier_sets_added_by_a_user_post_processor_through_AddArg(\"qualifier\", ...)": {
+                "scenarios": sum(1 for s in ran if qual_api_points(s)), "points": sum(len(qual_api_points(s)) for s in ran),
+                "points_with_the_qualifier_set_in_the_tag": sum(1 for s in ran for ti, t in enumerate(s["types"]) for k, p in enumerate(t["fields"])
+                                                                if p["quals"] is not None and (ti, k) not in qual_api_points(s))},
             "started_twice_on_the_same_instances": sum(1 for s in scns if s["id"] in by_id and s.get("twice", s["id"] % 5 == 4)),
             "preceded_by_another_app_whose_processor_rewrote_tag_arguments":
                 sum(1 for s in scns if s["id"] in by_id and foreign_first(s)),
